@@ -172,6 +172,41 @@ fn manifest_key_flip(key: &'static str) -> bool {
     }
 }
 
+// F-C13-e  (C13)  one flipped bit in the LENGTH prefix of a frame in the middle of the newest segment (after a clean stop): the frame now
+//                 "extends past the end of the file", which the reader takes for a torn tail: strict recovery succeeds without that entry
+//                 and without every entry behind it
+fn length_flip_reads_as_torn_tail() -> bool {
+    let dir = tempfile::tempdir().unwrap();
+    let b = HnswBackend::with_persistence(2, DistanceMetric::Euclidean, vec![], vec![], 100, dir.path(), FsyncPolicy::Always, 0, 0).unwrap();
+    for i in 1..=5u64 {
+        b.insert(i, vec![i as f32, 1.0], HashMap::new()).unwrap();
+    }
+    drop(b);
+    let m = Manifest::load(dir.path().join("MANIFEST")).unwrap();
+    let seg = dir.path().join(m.wal_segments.last().unwrap());
+    let mut bytes = std::fs::read(&seg).unwrap();
+    // layout: 4-byte magic, then frames [len: u32 LE][payload][crc: u32 LE]; walk to the third frame
+    let mut off = 4usize;
+    for _ in 0..2 {
+        let len = u32::from_le_bytes(bytes[off..off + 4].try_into().unwrap()) as usize;
+        off += 4 + len + 4;
+    }
+    let old = u32::from_le_bytes(bytes[off..off + 4].try_into().unwrap());
+    bytes[off + 1] ^= 0x04; // bit 10: length + 1024 (or - 1024), still far below the 100 MiB sanity limit
+    let new = u32::from_le_bytes(bytes[off..off + 4].try_into().unwrap());
+    std::fs::write(&seg, &bytes).unwrap();
+    println!("  segment {} bytes; frame 3 at offset {off}: length {old} -> {new}", bytes.len());
+    match HnswBackend::recover(2, DistanceMetric::Euclidean, dir.path(), 100, FsyncPolicy::Always, 0, 0, MetricsCollector::new()) {
+        Ok(r) => {
+            let mut v = r.scan(|_| true);
+            v.sort();
+            println!("  STRICT RECOVERY SUCCEEDED with docs {:?} (expected [1, 2, 3, 4, 5])", v);
+            v != vec![1, 2, 3, 4, 5]
+        }
+        Err(e) => { println!("  recovery refused: {e:#}"); false }
+    }
+}
+
 // F-C13-b  (C13)  truncation inside a frame of a rotated (non-final) segment is read as a torn tail
 //   live=[1, 2, 3, 4, 5, 6] segments=3
 //   STRICT RECOVERY SUCCEEDED with docs [1, 2, 4, 5, 6]
@@ -875,6 +910,7 @@ fn main() {
         ("F-C13-a", Box::new(strict_fallback_loss)),
         ("F-C13-b", Box::new(truncated_older_segment)),
         ("F-C13-d", Box::new(manifest_removed_server_starts_empty)),
+        ("F-C13-e", Box::new(length_flip_reads_as_torn_tail)),
         ("F-C13-c.snapshot", Box::new(|| manifest_key_flip("latest_snapshot"))),
         ("F-C13-c.segments", Box::new(|| manifest_key_flip("wal_segments"))),
         ("F-C04-a", Box::new(drain_resurrects)),
